@@ -149,25 +149,35 @@ StartFresh(m, n_it) ==
   /\ act' = [name |-> "StartFresh", mode |-> m, nit |-> n_it]
   /\ UNCHANGED <<saved, returned>>
 
-(* read_factors(iter = -1): the iteration whose file is used.  Repaired code: the largest iteration on disk.
-   Original code: the last entry of the (arbitrarily ordered) directory listing. *)
+(* read_factors(file_Klist_path, iter): the iteration whose factors file is used.
+   iter >= 0: that file (it must exist).  iter < 0: counted from the latest iteration on disk (-1 = latest), clipped
+   at 0, and if that file is missing the closest previous one.  Repaired code: "latest" is the largest iteration on
+   disk.  Original code: "latest" is the last entry of the (arbitrarily ordered) directory listing. *)
 LastIter(listing) == IF SortedListing THEN Max(DOMAIN ffiles) ELSE listing[Len(listing)]
+ReadIter(listing, ri) ==
+   IF ri >= 0 THEN ri
+   ELSE LET x == LastIter(listing) + ri + 1
+        IN IF x < 0 THEN 0
+           ELSE IF x \in DOMAIN ffiles THEN x
+           ELSE Max({i \in DOMAIN ffiles : i <= x})
 
-(* run(restart=True, restart_iteration=-1) *)
-StartRestart(m, n_it, listing) ==
+(* run(restart=True, restart_iteration=ri): all pickled K-points, weights of iteration ReadIter (zero for later points) *)
+StartRestart(m, n_it, listing, ri) ==
   /\ pc = "idle" /\ m.restart /\ (m.dump => m.allow)
   /\ pick # <<>> /\ DOMAIN ffiles # {}
   /\ Len(listing) = Cardinality(DOMAIN ffiles) /\ {listing[i] : i \in 1..Len(listing)} = DOMAIN ffiles
-  /\ LET s  == LastIter(listing)
+  /\ (ri >= 0 => ri \in DOMAIN ffiles)
+  /\ (ri < 0 => (LastIter(listing) + ri + 1 < 0 \/ \E i \in DOMAIN ffiles : i <= LastIter(listing) + ri + 1))
+  /\ LET s  == ReadIter(listing, ri)
          f  == Pad(ffiles[s], Len(pick))
          k0 == [i \in 1..Len(pick) |-> [pick[i] EXCEPT !.fac = f[i]]]
-     IN /\ Len(ffiles[s]) <= Len(pick)
+     IN /\ s \in DOMAIN ffiles /\ Len(ffiles[s]) <= Len(pick)
         /\ kl' = k0 /\ facs' = f /\ start' = s
         /\ coef' = f /\ resNone' = FALSE              \* sum(Kp.get_result_factor() for Kp in K_list)
         /\ nkprev' = Len(k0)
   /\ mode' = m /\ nit' = n_it /\ it' = 0 /\ rsum' = <<>> /\ rsNone' = TRUE
   /\ pc' = "process" /\ ResetP
-  /\ act' = [name |-> "StartRestart", mode |-> m, nit |-> n_it, listing |-> listing]
+  /\ act' = [name |-> "StartRestart", mode |-> m, nit |-> n_it, listing |-> listing, ri |-> ri]
   /\ UNCHANGED <<ffiles, pick, saved, returned>>
 
 -----------------------------------------------------------------------------
